@@ -84,9 +84,14 @@ def run(tier, seed, pid='C04'):
         [(5000, 'none'), (2500, 'client'), (1500, 'server'), (800, 'none')]
     # few messages, one of them far bigger than the longest handshake line allowed (16 KiB): joined with the final
     # handshake line in one read, its bytes are message data, not an over-long line
-    sizes = sizes + [(3, 'bigclient'), (3, 'bigserver')]
+    sizes = sizes + [(3, 'bigclient'), (3, 'bigserver'), (3, 'limit')]
     for j, (nm, role) in enumerate(sizes):
-        if role.startswith('big'):
+        if role == 'limit':
+            # a message of exactly the greatest length the protocol allows (2^27 bytes) between two small ones
+            base = len(mk_msg('call', 2)[0])
+            inst = Instance('none', [], [mk_msg('sig', 1), mk_msg('call', 2, pad=2 ** 27 - base), mk_msg('ret', 3)], 'limit')
+            assert len(inst.msgs[1][0]) == 2 ** 27, len(inst.msgs[1][0])
+        elif role.startswith('big'):
             r = role[3:]
             inst = Instance(r, {'client': [b'OK 1234'], 'server': [b'AUTH x', b'BEGIN']}[r],
                             [mk_msg('sig', 1, pad=rng.choice([17000, 40000]), crlf=True), mk_msg('call', 2, endian='B'),
@@ -96,9 +101,12 @@ def run(tier, seed, pid='C04'):
         styles = ['one', 'mixed', 'big', 'mixed', 'big', 'small' if nm <= 300 else 'big']
         if thorough:
             styles = styles * 3
+        if role == 'limit':
+            o = len(inst.msgs[0][0])
+            styles = [[inst.n], [o + 7, inst.n - o - 7], [o + 4096, inst.n - o - 4096]]
         batch = []
         for sty in styles:
-            reads = framing.random_partition(rng, inst.n, sty)
+            reads = sty if isinstance(sty, list) else framing.random_partition(rng, inst.n, sty)
             try:
                 batch.append(framing.record(inst, 'stub', [('Read', (k,)) for k in reads]))
             except Exception as ex:
